@@ -5,4 +5,30 @@ namespace c11
 {
   void rt_s2(Tape& t, Ctx& c) { rt_case<MeshS2>(t, c); }
   void fault_s2(Tape& t, Ctx& c) { fault_case<MeshS2>(t, c); }
+
+  // surface meshes: shape dimension 2 embedded in 3 world coordinates (UnitSphereFactory, mesh_indexer output). Own small generator: one or two
+  // cells of the shape, every vertex with three generated coordinates, optionally the boundary mesh part; round trip as in rt_case, plus the
+  // declared mesh type of the file (reader's get_meshtype_string) against the C++ type
+  template<typename M, typename Flat> static void surf_case(Tape& t, Ctx& c, const char* type)
+  {
+    const int ncells = 1 + (int)t.flag(1, 2); const int vcls = t.pick({2, 1, 1}); const bool with_part = t.flag(1, 2);
+    std::vector<std::array<double, 3>> vtx; std::vector<std::vector<Index>> cells; tiny_complex<Flat>(ncells, vtx, cells);
+    for(auto& v : vtx) { v[0] += 0.125 * t.real(1); v[1] += 0.125 * t.real(1); v[2] = t.real(vcls); }
+    J d = J::obj(); d.set("mesh_type", type); d.set("cells", ncells); { J a = J::arr(); for(auto& v : vtx) { J q = J::arr(); q.add(v[0]); q.add(v[1]); q.add(v[2]); a.add(q); } d.set("vertices", a); } d.set("boundary_part", with_part);
+    c.desc = d; c.op = "roundtrip-surface"; c.label(std::string("surface:") + type); c.nontrivial = true; c.announce();
+    Bundle<M> x; x.node.reset(new RootMeshNode<M>(mesh_from_top<M>(vtx, cells), x.atlas.get()));
+    if(with_part) { BoundaryFactory<M> bf(*x.node->get_mesh()); x.node->add_mesh_part("bnd", std::unique_ptr<MeshPart<M>>(new MeshPart<M>(bf))); }
+    const std::string w1 = write_bundle<M>(x, true, true);
+    { std::istringstream iss(w1); MeshFileReader rd(iss); rd.read_root_markup(); VF_CHECK(rd.get_meshtype_string() == type, "written file declares mesh type '" << rd.get_meshtype_string() << "', the mesh is '" << type << "'"); }
+    Bundle<M> y; try { parse_text<M>(w1, y); } catch(const std::exception& e) { VF_FAIL("reject-own-output:" << typeid(e).name() << ":" << e.what()); }
+    J mx = mesh_to_J<M>(*x.node->get_mesh()), my = mesh_to_J<M>(*y.node->get_mesh()); std::string why;
+    VF_CHECK(jcmp(mx, my, "", why), "surface mesh differs after write->parse at " << why);
+    if(with_part) { const MeshPart<M>* p = y.node->find_mesh_part("bnd"); VF_CHECK(p != nullptr, "boundary part lost"); J px = part_to_J<M>(*x.node->find_mesh_part("bnd"), ""), py = part_to_J<M>(*p, ""); VF_CHECK(jcmp(px, py, "", why), "boundary part differs after write->parse at " << why); }
+    const std::string w2 = write_bundle<M>(y, true, true); VF_CHECK(w1 == w2, "second write of the surface mesh differs from the first");
+  }
+  void rt_surf(Tape& t, Ctx& c)
+  {
+    typedef ConformalMesh<Shape::Simplex<2>, 3, Real> S23; typedef ConformalMesh<Shape::Hypercube<2>, 3, Real> Q23;
+    if(t.flag(1, 2)) surf_case<S23, MeshS2>(t, c, "conformal:simplex:2:3"); else surf_case<Q23, MeshQ2>(t, c, "conformal:hypercube:2:3");
+  }
 }
